@@ -217,8 +217,12 @@ def update_resource_class(req):  # noqa
     context = req.environ['placement.context']
     context.can(policies.UPDATE)
 
-    # Use JSON validation to validation resource class name.
-    util.extract_json('{"name": "%s"}' % name, schema.PUT_RC_SCHEMA_V1_2)
+    # Use JSON validation to validation resource class name. The name is
+    # serialized, not pasted into a JSON text: a name containing a quote or
+    # a backslash would otherwise be validated as something else than what
+    # is then stored.
+    util.extract_json(jsonutils.dumps({'name': name}),
+                      schema.PUT_RC_SCHEMA_V1_2)
 
     status = 204
     try:
